@@ -44,6 +44,62 @@ def run_contract(prop, target, contract, setups, name=None, to_case=None, post_r
     return u
 
 
+def _freeze(u):
+    """picklable form of a UnitResult produced in a worker process: each VC as SMT-LIB text"""
+    from pyvc.solve import vc_smt2
+
+    def fz(o):
+        return {"id": o.id, "kind": o.kind, "where": o.where, "smt2": vc_smt2(o.pc, o.goal), "verdict": o.verdict, "backend": o.backend}
+    return {"functions": u.functions, "outside": u.outside, "assumptions": sorted(u.assumptions), "notes": u.notes,
+            "obligations": [fz(o) for o in u.obligations], "canaries": [fz(o) for o in u.canaries]}
+
+
+def _mp_job(job):
+    import importlib
+    mod, fn, args = job
+    try:
+        return _freeze(getattr(importlib.import_module(mod), fn)(*args))
+    except Exception as e:  # generator fault in the worker: reported as outside-the-subset by the parent, never as a violation
+        return {"functions": [], "outside": [(f"{mod}.{fn}{args}", f"generator error {type(e).__name__}: {e}")], "assumptions": [], "notes": [],
+                "obligations": [], "canaries": [], "traceback": traceback.format_exc()}
+
+
+def run_parallel(name, jobs, to_case=None, replay_module=None):
+    """generate the VCs of several (function, setup) pairs in worker processes; job = (module, function name, args), the function
+    returns a UnitResult. The merged UnitResult carries the VCs as SMT-LIB text (Obligation.smt2_pre)."""
+    import z3
+    from concurrent.futures import ProcessPoolExecutor
+    from pyvc.symex import Obligation
+    u = UnitResult(name)
+    u.to_case, u.replay_module = to_case, replay_module
+    if len(jobs) == 1:
+        parts = [_mp_job(jobs[0])]
+    else:
+        with ProcessPoolExecutor(max_workers=min(len(jobs), 16)) as pool:
+            parts = list(pool.map(_mp_job, jobs))
+    seen = set()
+    for p in parts:
+        for f in p["functions"]:
+            key = f.get("function"), f.get("sha256")
+            if key not in seen:
+                seen.add(key)
+                u.functions.append(f)
+        u.outside += [tuple(x) for x in p["outside"]]
+        u.assumptions |= set(p["assumptions"])
+        u.notes += p["notes"]
+        if p.get("traceback"):
+            print(p["traceback"])
+        for src, dst in (("obligations", u.obligations), ("canaries", u.canaries)):
+            for d in p[src]:
+                o = Obligation(d["id"], [], z3.BoolVal(True), d["kind"], d["where"])
+                o.smt2_pre = d["smt2"]
+                o.verdict, o.backend = d["verdict"], d["backend"]
+                dst.append(o)
+    if not u.obligations and not u.outside:
+        u.outside.append((name, "no obligations were generated (vacuous contract?)"))
+    return u
+
+
 def unit_stft_frame(prop):
     def unit(tier, known):
         from contracts import stft_frame as C
@@ -240,7 +296,20 @@ def unit_read_signal(prop, which):
     return unit
 
 
+def unit_si(prop, which):
+    def unit(tier, known):
+        from contracts import si_stream as C
+        rm = "rtc.c01" if prop == "C01" else ("rtc.c04" if prop == "C04" else "rtc.c03")
+        if which == "preamble":
+            rm = "rtc.c04"  # what the preamble resets only shows in call histories: replayed by the C04 stand-in (computer reuse)
+        jobs = [("contracts.si_stream", "generate", (prop, which, label)) for label in C.LABELS[which]]
+        return run_parallel("si_" + which, jobs, to_case=getattr(C, "to_case_" + rm[-3:]), replay_module=rm)
+    unit.__name__ = "si_" + which
+    return unit
+
+
 UNITS = {
+    "C03": [unit_si("C03", w) for w in ("chunk", "handle_skip", "preamble", "finalize", "full")],
     "C13": [_lazy("contracts.shorten", "unit_bit_reader", "C13")],
     "C11": [unit_read_signal("C11", "dispatch"), unit_read_signal("C11", "wds"), unit_read_signal("C11", "infer")],
     "C16": [unit_std("C16", "accumulate_vector"), unit_std("C16", "apply_vector"), unit_std("C16", "have_stats")],
@@ -256,6 +325,7 @@ UNITS = {
     "C10": [_lazy_list("contracts.cli", "units", "C10", k) for k in range(3)],
     "C19": [_scales("C19")],
     "C02": [unit_stft_frame("C02"), unit_stft("C02", "full"), unit_tri("C02", "init"), unit_tri("C02", "truncated")],
-    "C01": [unit_stft("C01", "finalize"), unit_stft("C01", "chunk"), unit_fbf("C01")],
-    "C04": [unit_stft("C04", "finalize"), unit_stft("C04", "chunk"), unit_stft("C04", "full"), unit_fbf("C04"), unit_stft_fresh("C04")],
+    "C01": [unit_stft("C01", "finalize"), unit_stft("C01", "chunk"), unit_fbf("C01")] + [unit_si("C01", w) for w in ("chunk", "handle_skip", "finalize", "full")],
+    "C04": [unit_stft("C04", "finalize"), unit_stft("C04", "chunk"), unit_stft("C04", "full"), unit_fbf("C04"), unit_stft_fresh("C04")] +
+           [unit_si("C04", w) for w in ("preamble", "finalize", "full", "chunk")],
 }
